@@ -61,6 +61,8 @@ def scan_forbidden(src_root):
 
 
 def main():
+    import faulthandler, signal
+    faulthandler.register(signal.SIGUSR1, all_threads=False)
     ap = argparse.ArgumentParser()
     ap.add_argument('prop')
     ap.add_argument('--tier', default=os.environ.get('VERIF_TIER', 'quick'))
@@ -87,7 +89,9 @@ def main():
         if bad:
             raise Unsupported('dynamic feature outside the assumed Python semantics: ' + '; '.join(bad[:5]))
         mod.run(ctx)
+        t_run = time.time() - t0
         ctx.discharge_all()
+        ctx.notes.append(f'phases: generation {t_run:.1f}s, discharge {time.time() - t0 - t_run:.1f}s')
     except Unsupported as e:
         status, message = 'undecided', f'unsupported construct / drift: {e}'
         if a.verbose:
